@@ -37,7 +37,7 @@ def cases(tier, seed):
             yield {"k": "grid", "gen": gen, "seed": rnd.randrange(1 << 30), "block": block,
                    "width": 6 if tier == "thorough" else 12}
         yield {"k": "enum", "gen": gen, "seed": rnd.randrange(1 << 30)}
-    n = 120 if tier == "quick" else 5000
+    n = 120 if tier == "quick" else 20000
     for _ in range(n):
         yield {"k": "random", "gen": rnd.choice((4, 5)), "seed": rnd.randrange(1 << 30),
                "ncalls": 120}
